@@ -137,6 +137,10 @@ pub struct LogRec {
 	pub live: bool,
 }
 
+/// A commit was postponed behind later ones in the current run (known C11 finding): whatever
+/// fails afterwards, including a panic or a call that never returns, is classified with it.
+pub static DEFERRAL_SEEN: std::sync::atomic::AtomicBool = std::sync::atomic::AtomicBool::new(false);
+
 pub fn map_property(scenario: &str) -> &'static str {
 	match scenario {
 		"kv" => "C01",
@@ -200,6 +204,7 @@ pub fn column_options(c: &ColCfg) -> ColumnOptions {
 
 impl<'a> Exec<'a> {
 	pub fn new(cfg: &'a RunCfg, base: &str) -> Exec<'a> {
+		DEFERRAL_SEEN.store(false, std::sync::atomic::Ordering::SeqCst);
 		let live = format!("{}/live0", base);
 		Exec {
 			cfg,
@@ -464,6 +469,7 @@ impl<'a> Exec<'a> {
 				}
 				if self.counts().0 == q {
 					self.deferral_happened = true;
+					DEFERRAL_SEEN.store(true, std::sync::atomic::Ordering::SeqCst);
 				}
 			}
 			if self.counts().0 > 0 && budget == 0 {
@@ -951,6 +957,7 @@ impl<'a> Exec<'a> {
 					if q0 > 0 && self.counts().0 == q0 {
 						// popped and re-queued: the commit was postponed (tree reader lock)
 						self.deferral_happened = true;
+					DEFERRAL_SEEN.store(true, std::sync::atomic::Ordering::SeqCst);
 						self.stats.probe("commit_postponed");
 					}
 				}
@@ -1685,6 +1692,7 @@ impl<'a> Exec<'a> {
 				match op {
 					TxOp::Set(k, _) | TxOp::Del(k) | TxOp::Ref(k) | TxOp::InsertTree(k, _) | TxOp::RefTree(k) | TxOp::DerefTree(k) => {
 						self.deferral_victims.insert((*c, *k));
+						DEFERRAL_SEEN.store(true, std::sync::atomic::Ordering::SeqCst);
 					},
 					_ => {},
 				}
